@@ -7,8 +7,8 @@ ordering, REFMASKED, AD / ADMF) and `_vcf_sort_alleles`.
 `bam_region_depths` forwards `min_quality=`, `skip_duplicates=`, `skip_qcfail=`, `skip_supplementary=` to
 `AlignmentFile.pileup(**kwargs)`.  pysam reads only the keywords it knows (`stepper`, `flag_filter`,
 `min_mapping_quality`, `min_base_quality`, `ignore_orphans`, `ignore_overlaps`, …) and silently ignores the rest,
-so the pileup runs with pysam's defaults whatever the user configured.  The model mirrors that: `FilterCfg` is an
-argument of `bamRegionDepths` and is not used (theorem `C19.depths_config_independent`).
+so the pileup runs with pysam's defaults whatever the user configured.  The model mirrors that: `engineCfgOf` maps every
+`FilterCfg` to `pysamDefaults` (theorem `C19.depths_config_independent`); a repair of the code changes `engineCfgOf` only.
 
 Core Lean only.
 -/
@@ -22,12 +22,29 @@ structure FilterCfg where
   skipSupp : Bool := true
   deriving Repr
 
-/-! ### the pileup engine with pysam's defaults -/
+/-! ### the pileup engine -/
 
-/-- `flag_filter = BAM_FUNMAP | BAM_FSECONDARY | BAM_FQCFAIL | BAM_FDUP`, `min_mapping_quality = 0`,
-`ignore_orphans = True` (a paired record that is not a proper pair is dropped) -/
-def enginePasses (a : Aln) : Bool :=
-  !(a.isUnmapped || a.isSecondary || a.isQcfail || a.isDuplicate) && !(a.isPaired && !a.isProperPair)
+/-- the arguments `AlignmentFile.pileup` actually reads (defaults of pysam 0.24):
+`flag_filter = BAM_FUNMAP | BAM_FSECONDARY | BAM_FQCFAIL | BAM_FDUP`, `min_mapping_quality = 0`,
+`min_base_quality = 13`, `ignore_orphans = True`, `ignore_overlaps = True` (stepper "samtools") -/
+structure EngineCfg where
+  flagFilter : Nat := 0x704
+  minMapQ : Nat := 0
+  minBaseQ : Nat := 13
+  ignoreOrphans : Bool := true
+  ignoreOverlaps : Bool := true
+  deriving Repr
+
+def pysamDefaults : EngineCfg := {}
+
+/-- what `bam_region_depths(..., **kwargs)` makes of the configured filters: `min_quality`, `skip_duplicates`,
+`skip_qcfail` and `skip_supplementary` are not keywords of `pileup`, pysam drops them silently, the defaults stay -/
+def engineCfgOf (_cfg : FilterCfg) : EngineCfg := pysamDefaults
+
+/-- read-level filter of the "samtools" stepper: flag mask, mapping quality, orphans (a paired record that is not a
+proper pair) -/
+def enginePasses (e : EngineCfg) (a : Aln) : Bool :=
+  (a.flag &&& e.flagFilter == 0) && decide (e.minMapQ ≤ a.mapq) && !(e.ignoreOrphans && a.isPaired && !a.isProperPair)
 
 /-- records the region iterator hands to the pileup: same contig, reference span meets `[start, stop)` -/
 def regionFetched (contig : String) (start stop : Nat) (a : Aln) : Bool :=
@@ -108,8 +125,9 @@ def pushRead (st : OverlapState) (b : Aln) : OverlapState :=
         { done := st.done.set i ab.1 ++ [ab.2], pending := st.pending.filter (fun e => e.1 != b.qname) }
 
 /-- the records in the pileup buffer with their (possibly tweaked) qualities -/
-def engineReads (contig : String) (start stop : Nat) (reads : List Aln) : List Aln :=
-  ((reads.filter (fun a => regionFetched contig start stop a && enginePasses a)).foldl pushRead {}).done
+def engineReads (e : EngineCfg) (contig : String) (start stop : Nat) (reads : List Aln) : List Aln :=
+  let buf := reads.filter (fun a => regionFetched contig start stop a && enginePasses e a)
+  if e.ignoreOverlaps then (buf.foldl pushRead {}).done else buf
 
 /-- `_ord_to_index`: A/a C/c G/g T/t → 0..3, anything else −1 (`none`) -/
 def baseIndex (c : Char) : Option Nat :=
@@ -132,11 +150,14 @@ def countColumn (f : Aln → Option Nat) (reads : List Aln) : List Nat :=
   (List.range 4).map (fun k => reads.countP (fun a => f a == some k))
 
 /-- `bam_region_depths(bam_paths, reference_path, contig, start, stop, min_quality=…, skip_duplicates=…,
-skip_qcfail=…, skip_supplementary=…)`: positions × samples × 4. The configured filters are accepted and ignored. -/
-def bamRegionDepths (_cfg : FilterCfg) (bams : List (List Aln)) (contig : String) (start stop : Nat) :
+skip_qcfail=…, skip_supplementary=…)`: positions × samples × 4. The configured filters reach the engine only through
+`engineCfgOf`, i.e. not at all. -/
+def bamRegionDepths (cfg : FilterCfg) (bams : List (List Aln)) (contig : String) (start stop : Nat) :
     List (List (List Nat)) :=
+  let e := engineCfgOf cfg
   (List.range (stop - start)).map (fun i =>
-    bams.map (fun reads => countColumn (fun a => columnBase 13 a (start + i)) (engineReads contig start stop reads)))
+    bams.map (fun reads =>
+      countColumn (fun a => columnBase e.minBaseQ a (start + i)) (engineReads e contig start stop reads)))
 
 /-! ### thresholds, emission, ordering (`write_vcf_block`) -/
 
